@@ -50,15 +50,18 @@ def workersPass (c : Cfg) (s : State) : State × Bool :=
 /-- one scan of the loop over nodes `from … n-1`; a step whose precondition is controlled by the
     harness (pre = 3) blocks the loop thread in `launching` until the harness answers -/
 def scanFrom (k : Case) (s : State) (start : Nat) : State :=
-  (List.range k.cfg.n).foldl (fun s i =>
-    if i < start then s else
+  ((List.range k.cfg.n).foldl (fun (acc : State × Bool) i =>
+    let (s, broke) := acc
+    if i < start || broke then acc else
     match s.loop with
     | .scanning =>
+      -- `if sc.isCanceled() { break NodesIteration }` for a node that is none and ready
+      let brk := s.canceled && (s.nd i).status == .none && (isReady k.cfg s i).1
       let s1 := act k.cfg s (.visitDecide i)
       match s1.loop with
-      | .launching j => if k.pre j == 3 then s1 else act k.cfg s1 (.visitLaunch j (k.pre j != 2))
-      | _ => s1
-    | _ => s) s
+      | .launching j => if k.pre j == 3 then (s1, false) else (act k.cfg s1 (.visitLaunch j (k.pre j != 2)), false)
+      | _ => (s1, brk)
+    | _ => acc) (s, false)).1
 
 def scan (k : Case) (s : State) : State := scanFrom k s 0
 
